@@ -4,6 +4,7 @@
 import json, os, shutil, subprocess, sys
 pid, x = sys.argv[1], sys.argv[2]
 wt = sys.argv[3] if len(sys.argv) > 3 else "/tmp/mut/%s" % pid
+as_letter = sys.argv[4] if len(sys.argv) > 4 else x       # archive under another letter (second round: A/B of /tmp/mut2 become C/D)
 md = os.path.join(wt, "_mutation")
 env = dict(os.environ, PYTHONPATH=wt)
 def sh(cmd, **kw):
@@ -25,7 +26,7 @@ print("demo clean rc=0; demo mutated rc=%d; suite: %s" % (d1.returncode, tail))
 if not (ok_demo and ok_suite):
     print("NOT CONFIRMED"); sys.exit(1)
 notes = json.load(open(os.path.join(md, "notes.json")))[x]
-dst = "/verif/seeded/%s-%s" % (pid, x)
+dst = "/verif/seeded/%s-%s" % (pid, as_letter)
 os.makedirs(dst, exist_ok=True)
 shutil.copy(os.path.join(md, "%s.diff" % x), os.path.join(dst, "patch.diff"))
 shutil.copy(os.path.join(md, "demo_%s.py" % x), os.path.join(dst, "demo.py"))
